@@ -8,7 +8,10 @@
 
     The durable state is the result of a LOG of atomic write units: each unit
     is one LevelDB batch (or one point write) and is a list of primitive facts.
-    A crash keeps a prefix of the log.  Block hashes are abstract identifiers;
+    A crash keeps a prefix of the log.  A block has no size here: a unit is
+    the same whether the block has one transaction or thousands (the harness
+    folds the index records of a block's transactions into one [FTx] only when
+    a write holds all of them).  Block hashes are abstract identifiers;
     execution is an oracle (every block executes).  Which operations happen
     (store / connect / disconnect) is decided by the C25 fork-choice model,
     instrumented here to emit them in the order of the code. *)
@@ -21,7 +24,7 @@ Open Scope Z_scope.
 
 Inductive fact :=
 | FFlag (k : N)                          (* point write of a flag: 1 = tx quick index, 2 = db version *)
-| FTx (b : N) (h : option Z)             (* tx index of block b's transaction: set to height h / deleted *)
+| FTx (b : N) (h : option Z)             (* tx index records of ALL transactions of block b: set to height h / deleted *)
 | FBlk (b : N)                           (* header, body and receipt rows of b with their by-hash index rows *)
 | FBlkUpd (b : N)                        (* the data rows of b rewritten (body and receipts after execution) *)
 | FLast (h : Z)                          (* blockLastHeight := h *)
